@@ -127,7 +127,9 @@ CLAIMED.update({
             "body has lines of exactly L, a last line of 1..L, none empty; write_assembly concatenates in scaffold order; residues "
             "written = sum of row lengths = last AGP object end (C06). C03_index_then_stream composes this with C04: for every "
             "well-formed rendered FASTA and the index the real indexer builds from it, no access premise is left. " + CORR + "Naive re-implementation from the record strings as oracle.",
-            NOTE + "End-to-end through the CLI is exercised under C16/C17.",
+            NOTE + "End to end through the CLI: generated (FASTA, edit script) pairs through pretext-to-asm -o x.fa, directly and "
+            "through a symbolic link re-pointed at an older FASTA between two runs; every FASTA written is compared with its AGP "
+            "companion applied naively to the FASTA the run was given (oracle only; no model term for the CLI family).",
             "Coq proof (wrap state machine, chunk algebra) + in-Coq correspondence of FastaStream output + naive oracle",
             "DESIGN.md 6/C03"),
     "C04": ("Coq theorems, unbounded: for every well-formed FASTA layout (any width >= 1, LF/CRLF, final newline present or "
